@@ -37,6 +37,7 @@ mod cmd_macro;
 mod cmd_tree;
 mod cmd_prover;
 mod cmd_oracle;
+mod cmd_py;
 
 use std::io::{self, BufRead, Write};
 use std::panic::{catch_unwind, AssertUnwindSafe};
